@@ -1,6 +1,6 @@
 #!/bin/bash
 # regenerate coq/_CoqProject from the files present (Base first); regenerate the Makefile when it changed
-cd /verif/coq
+cd "$(dirname "$0")/../coq"
 { echo "-Q . PPV"; ls Base/*.v; ls C[0-9]*/*.v 2>/dev/null | sort; ls Properties/*.v 2>/dev/null | sort; } > _CoqProject.new
 if ! cmp -s _CoqProject.new _CoqProject || [ ! -f Makefile ]; then
   mv _CoqProject.new _CoqProject
